@@ -185,7 +185,7 @@ EXTRA7 = {
  "C03": " Also: per-flag index writes pick their ids out of the unfiltered rows tx.GetMessagesFlags returned; every comparison of message_flags.value with a bound parameter is COLLATE NOCASE (found and repaired a genuine defect, fix f80fe44).",
  "C05": " Also: the responder queue (State.res) receives every responder queueResponder is given, on every path.",
  "C09": " Also: only a failed parse of the file name keeps a stored entry out of List; a releaser removes a lock-table entry only on the equal edge of a comparison of the table's current entry for the id with its own (found and repaired a genuine defect, fix 14ba087).",
- "C10": " Also: Scanner.ConsumeBytes (which prepends the look-ahead byte) is never executed twice without an advance of the scanner in between.",
+ "C10": " Also: Scanner.ConsumeBytes (which prepends the look-ahead byte) is never executed twice without an advance of the scanner in between. In imap/command no arithmetic or comparison has a SeqNum operand (a set is parsed to exactly what was written; rule shared with C16).",
  "C11": " Also: a method of a command's payload is called only where the error that came with the command was found nil.",
  "C12": " Also: every string converted to rfc822.MIMEType is a constant, a mime.ParseMediaType result or lower-cased.",
  "C13": " Also: a size returned next to an io.MultiReader over byte slices equals, as a linear expression, the sum of the lengths of the parts.",
